@@ -4,7 +4,8 @@ import corelib
 
 SPEC = dict(
     prop='C10',
-    corr=[('runcases', 6, 16, ['-n', '150', '-profile', 'all'], ('',))],
+    corr=[('runcases', 3, 8, ['-n', '150', '-profile', 'all'], ('',)),
+          ('runcases', 5, 12, ['-n', '150', '-profile', 'cleanups'], ('',))],
     oracles=[('c10-oracle',
               [['-n', '60', '-seed', '{seed}', '-shrinkms', '150'] for _ in range(6)],
               [['-n', '300', '-seed', '{seed}', '-shrinkms', '1000'] for _ in range(16)])],
